@@ -53,7 +53,8 @@ def inline_calls(ss):
             args = s[2]
             if s[1] == "bump":
                 a = args[0]
-                out.append(("assign", a[1], a[2] if a[0] == "idx" else [], ("bin", "Add", a, ("lit", 100))))
+                if a[0] in ("var", "idx"):       # (an expression argument is passed by value: no effect)
+                    out.append(("assign", a[1], a[2] if a[0] == "idx" else [], ("bin", "Add", a, ("lit", 100))))
             elif s[1] == "setv":
                 a = args[0]
                 if a[0] in ("var", "idx"):
@@ -607,6 +608,8 @@ def replay_known(ctx, rn):
             continue
         trans = k["key"].split("/")[0]
         text = HEADER + "\n".join("  " + ln for ln in w["body"]) + "\nend subroutine sub\n"
+        if any(ln.strip().startswith("call ") for ln in w["body"]):
+            text = "module c05mod\ncontains\n" + text + CALLEES + "end module c05mod\n"
         psy, p0, _ = rn.impl.read_text(text, w.get("negative_literal_step", False))
         target = w["target"]
         target = tuple(tuple(t) for t in target) if trans == "fuse" else tuple(target)
@@ -649,7 +652,7 @@ def run(ctx):
     ctx.log("known-finding witnesses reproduced: %d of %d" % (nk, len(ctx.known_findings())))
     rng = ctx.rng("gen")
     g = GEN.G(rng)
-    nprog = ctx.pick(130, 1200)
+    nprog = ctx.pick(130, 1000)
     nstores = ctx.pick(8, 12)
     seen = set()
     for n in range(nprog):
@@ -677,7 +680,7 @@ def run(ctx):
     # the Coq model is evaluated on the known-finding witnesses and on a deterministic subset of the programs
     # (every case is always compared implementation <-> mirror; coqc parsing of the case files dominates the cost)
     allg = list(rn.coq_groups.values())
-    step, cap = ctx.pick(4, 1), ctx.pick(32, 300)
+    step, cap = ctx.pick(4, 1), ctx.pick(26, 250)
     nk_groups = len(ctx.known_findings())
     groups = allg[:nk_groups] + allg[nk_groups::step][:cap]
     terms = []
